@@ -58,7 +58,11 @@ type Ctx struct {
 	CallSites     int
 }
 
+// curProg: the program under analysis (for helpers that need the call graph but have no Ctx at hand).
+var curProg *Prog
+
 func NewCtx(p *Prog, prop, tier string) *Ctx {
+	curProg = p
 	return &Ctx{P: p, Prop: prop, Tier: tier, seenKey: map[string]int{}, FuncsAnalysed: map[string]bool{}}
 }
 
